@@ -2,6 +2,7 @@
 from .. import env
 
 PROPERTY = "C02"
+CROSS_CHECK = True      # thorough: dumped assertion queries are re-decided by z3 4.8.12 and cvc5 1.0
 LEVEL = "model_checking"
 STUBS = ["array -> SymArray('i')", "hash_function -> dictionary key -> symbolic 64-bit vector"]
 ASSUMPTIONS = [
